@@ -2,5 +2,5 @@
 # seedall.sh <out-file> <seed-root>... : evaluate every seed under the given roots (FAST honoured), 5 at a time.
 OUT=$1; shift
 : > $OUT
-for R in "$@"; do ls -d $(realpath $R)/[CRSTUVWXYZ][0-9]*; done | xargs -P ${PAR:-5} -I{} bash -c 'r=$(basename $(dirname {})); bash /verif/tools/seedeval.sh {} 2>/dev/null | grep -v "^WARNING" | sed "s|^|$r |"' >> $OUT
+for R in "$@"; do ls -d $(realpath $R)/[ACRSTUVWXYZ][0-9]*; done | xargs -P ${PAR:-5} -I{} bash -c 'r=$(basename $(dirname {})); bash /verif/tools/seedeval.sh {} 2>/dev/null | grep -v "^WARNING" | sed "s|^|$r |"' >> $OUT
 sort -o $OUT $OUT
